@@ -48,6 +48,8 @@ type Scenario struct {
 	ApiCalls     int64
 	Asserts      int64
 	Samples      []PathSample
+	WallNs       int64
+	SolverNs     int64
 	seen         int
 }
 
@@ -274,6 +276,8 @@ func (ex *Explorer) runPath(solver *Solver, it WorkItem) {
 		ex.eng.noteEncoded(fn)
 	}
 	scn.mu.Lock()
+	scn.WallNs += int64(time.Since(tPath))
+	scn.SolverNs += int64(p.solverWall)
 	scn.Paths++
 	scn.Steps += int64(p.steps)
 	scn.ApiCalls += int64(p.apiCalls)
